@@ -132,6 +132,7 @@ def obligations_c38(ctx, mode):
     obs.append(eqs(enc, tag + "system body/mobility forces = documented law%s" % lab, force_pairs(ctx, L, "F", "")))
     obs.append(eqs(enc, tag + "calcForceContribution = documented law%s" % lab, force_pairs(ctx, L, "Fc", "")))
     if mode == "law":
+        obs.append(eq(enc, tag + "PE: calcPotentialEnergyContribution before any force evaluation = sum k_i q_i^2/2", ctx.out("PE0"), B["PE"]))
         return obs
     tr = ctx.tr
     olds = [n for n, kind, _, _ in tr.inputs if "_old" in n]
